@@ -40,7 +40,7 @@ pub struct Item
 	pub out: &'static str,
 }
 
-pub const ITEMS: [Item; 13] = [
+pub const ITEMS: [Item; 16] = [
 	Item { name: "K", kind: "const", text: "const K: i32 = 5;\n", iface: &[], body: &[], use_lines: "\tprint!(\"k=\", K, \"\\n\");\n", use_deps: &["K"], out: "k=5\n" },
 	Item { name: "N", kind: "const", text: "const N: usize = 3;\n", iface: &[], body: &[], use_lines: "", use_deps: &[], out: "" },
 	Item { name: "M", kind: "const", text: "const M: usize = N + 1;\n", iface: &["N"], body: &[], use_lines: "", use_deps: &[], out: "" },
@@ -54,10 +54,18 @@ pub const ITEMS: [Item; 13] = [
 	Item { name: "a", kind: "fn", text: "fn a(v: []i32) -> i32\n{\n\treturn: v[M - 1]\n}\n", iface: &[], body: &["M"], use_lines: "\tvar v1: [M]i32 = [1, 2, 3, 4];\n\tprint!(\"a=\", a(v1), \"\\n\");\n", use_deps: &["a", "M"], out: "a=4\n" },
 	Item { name: "u", kind: "fn", text: "fn u(s: &S)\n{\n\ts.a = 9;\n}\n", iface: &["S"], body: &[], use_lines: "\tvar s2 = S { a: 4, b: [1, 2, 3] };\n\tu(&s2);\n\tprint!(\"u=\", s2.a, \"\\n\");\n", use_deps: &["u", "S"], out: "u=9\n" },
 	Item { name: "r", kind: "fn", text: "fn r(n: i32) -> i32\n{\n\treturn: abs(n) + 1\n}\n", iface: &[], body: &["abs"], use_lines: "\tprint!(\"r=\", r(-3), \"\\n\");\n", use_deps: &["r"], out: "r=4\n" },
+	// compound exported parts: a structure whose members are a structure, a word and a pointer to a
+	// structure; a function over a pointer to it; a function over a view of rows of named length
+	Item { name: "P", kind: "struct", text: "struct P\n{\n\ts: S,\n\tw: W,\n\tnext: &S,\n}\n", iface: &["S", "W"], body: &[], use_lines: "", use_deps: &[], out: "" },
+	Item { name: "q", kind: "fn", text: "fn q(p: &P) -> i32\n{\n\treturn: p.s.a + p.s.b[2] + p.next.a\n}\n", iface: &["P"], body: &[], use_lines: "\tvar s3 = S { a: 30, b: [1, 2, 3] };\n\tvar p1 = P { s: S { a: 4, b: [1, 2, 3] }, w: W { lo: 7, hi: 9 }, next: &s3 };\n\tprint!(\"q=\", q(&p1), \"\\n\");\n", use_deps: &["q", "P", "S", "W"], out: "q=37\n" },
+	Item { name: "z", kind: "fn", text: "fn z(rows: [][N]i32) -> i32\n{\n\treturn: rows[1][N - 1]\n}\n", iface: &["N"], body: &[], use_lines: "\tvar m1: [2][N]i32 = [[1, 2, 3], [4, 5, 6]];\n\tprint!(\"z=\", z(m1), \"\\n\");\n", use_deps: &["z", "N"], out: "z=6\n" },
 ];
 
 /// Items that `main` can exercise directly.
-pub const ROOTS: [&str; 9] = ["K", "abs", "f", "g", "h", "t", "a", "u", "r"];
+pub const ROOTS: [&str; 11] = ["K", "abs", "f", "g", "h", "t", "a", "u", "r", "q", "z"];
+/// The roots with compound exported parts: in the quick tier (programs of at most 6 units) z is
+/// combined with at most one other root and q (whose closure has six units) is left to the thorough tier.
+pub const COMPOUND_ROOTS: [&str; 2] = ["q", "z"];
 
 fn item_index(name: &str) -> usize
 {
@@ -129,6 +137,12 @@ pub fn programs(max_units: usize) -> Vec<Program>
 			}
 		}
 		if closure.len() + 1 > max_units
+		{
+			continue;
+		}
+		// quick tier: the root with the six-unit closure (q) only in the thorough tier, the other
+		// compound root with at most one other root
+		if max_units <= 6 && (roots.iter().any(|r| ITEMS[*r].name == "q") || (roots.len() > 2 && roots.iter().any(|r| COMPOUND_ROOTS.contains(&ITEMS[*r].name))))
 		{
 			continue;
 		}
